@@ -1,0 +1,23 @@
+//! Verification hooks, compiled only with the `ax_verif` cargo feature (off by default).
+//! With the feature on, `fatal_error!` / `opcode_unimplemented!` return an `Err` on native
+//! targets exactly as they already do on wasm32, and note here which rejection path ran.
+use std::cell::Cell;
+
+#[derive(Debug, Clone, Copy, PartialEq, Eq)]
+pub enum Rejection {
+    None,
+    Fatal,
+    Unimplemented,
+}
+
+thread_local! {
+    static LAST_REJECTION: Cell<Rejection> = Cell::new(Rejection::None);
+}
+
+pub fn note_rejection(r: Rejection) {
+    LAST_REJECTION.with(|c| c.set(r));
+}
+
+pub fn take_rejection() -> Rejection {
+    LAST_REJECTION.with(|c| c.replace(Rejection::None))
+}
